@@ -35,11 +35,17 @@ def naif_table():
     return rows
 
 
-def oracle_table():
+def files_agree():
     a, b = iers_table(), naif_table()
-    if [(x, y) for x, y in a] != [(x, y) for x, y, _ in b]:
-        raise TableError("data/leap-seconds.list and naif0012.txt disagree: %r vs %r" % (a, b))
-    if len(a) < 2 or a[0][1] != 10:
+    return [(x, y) for x, y in a] == [(x, y) for x, y, _ in b]
+
+
+def oracle_table():
+    """The NAIF kernel's civil dates are the primary oracle (dates, not second counts, are what IERS announces);
+    the IERS list is the second one. Both are emitted; the table harness compares the built-in table with BOTH,
+    so a disagreement between the two shipped files surfaces as a violation of `lists exactly the IERS leap seconds`."""
+    b = naif_table()
+    if len(b) < 2 or b[0][1] != 10:
         raise TableError("unexpected oracle table")
     return [(x, y, d) for (x, y, d) in b]
 
@@ -56,5 +62,10 @@ def generated_rs():
     for _, _, d in t:
         p = d - datetime.timedelta(days=1)
         out.append(f"    ({p.year}, {p.month}, {p.day}),\n")
+    out.append("];\n")
+    a = iers_table()
+    out.append(f"pub const ORACLE_LEAPS_IERS_LIST: [(u64, u64); {len(a)}] = [\n")
+    for s, d in a:
+        out.append(f"    ({s}, {d}),\n")
     out.append("];\n")
     return "".join(out)
